@@ -175,6 +175,7 @@ type Act struct {
 	blkReach map[*ssa.BasicBlock]string
 	recvVars map[string]Val
 	pending  []pendingAnchor
+	ordinalsQ map[ssa.Instruction]int
 	ordinals map[ssa.Instruction]int
 	modWhole map[string]bool
 	modObjs  map[string][]string
